@@ -1,5 +1,6 @@
 use crate::report::Ctx;
 pub mod c01;
+pub mod c02;
 pub mod c07;
 pub mod c08;
 pub mod c09;
@@ -12,6 +13,7 @@ pub mod c17;
 pub fn lookup(name: &str) -> Option<fn(&mut Ctx)> {
     match name {
         "C01" => Some(c01::run),
+        "C02" => Some(c02::run),
         "C07" => Some(c07::run),
         "C08" => Some(c08::run),
         "C09" => Some(c09::run),
